@@ -6,6 +6,7 @@ import (
 	"math"
 
 	"github.com/iotaledger/iota.go/consts"
+	"github.com/iotaledger/iota.go/trinary"
 )
 
 // Simulation hooks, compiled only with the verif build tag.
@@ -24,6 +25,8 @@ var (
 	SimYield func(site string, who int)
 	// SimState is called by a worker with the first 243 entries of the BCT state of the batch starting at nonce.
 	SimState func(l, h *[consts.HashTrinarySize]uint, nonce uint64)
+	// SimDigest is called by Score with the Curl hash of the message with the given nonce, which it may observe or replace.
+	SimDigest func(digest trinary.Trits, nonce uint64)
 )
 
 func simYield(site string, who int) {
@@ -35,6 +38,12 @@ func simYield(site string, who int) {
 func simState(l, h *[consts.HashTrinarySize]uint, nonce uint64) {
 	if SimState != nil {
 		SimState(l, h, nonce)
+	}
+}
+
+func simDigest(digest trinary.Trits, nonce uint64) {
+	if SimDigest != nil {
+		SimDigest(digest, nonce)
 	}
 }
 
